@@ -20,6 +20,7 @@ type c06Case struct {
 	Features    []string          `json:"features"`
 	PastedEnv   map[string]string `json:"pasted_env,omitempty"`
 	Negative    string            `json:"negative,omitempty"`
+	ErrMust     string            `json:"err_must,omitempty"` // text the rejection has to carry
 	MustLoad    bool              `json:"must_load,omitempty"`
 }
 
@@ -172,8 +173,40 @@ func genC06(t *rapid.T) c06Case {
 		if kind == "services" {
 			sm := written.(map[string]any)
 			interpolateSomeLeaves(t, sm, fmt.Sprintf("G%d_%s", g, strings.ToUpper(strings.ReplaceAll(name, "-", "_"))), groups[g].defs)
+			vm := v.(map[string]any)
+			if rapid.IntRange(0, 2).Draw(t, "passthrough") == 0 {
+				// an environment entry without a value takes it from the included project's environment
+				key := fmt.Sprintf("PASS_G%d_%s", g, strings.ToUpper(strings.NewReplacer("-", "_", ".", "_").Replace(name)))
+				val := rapid.SampledFrom([]string{"from-included-env", "x y", "1"}).Draw(t, "passval")
+				envp, _ := vm["environment"].(map[string]any)
+				if envp == nil {
+					envp = map[string]any{}
+					vm["environment"] = envp
+				}
+				envp[key] = val
+				envw, _ := sm["environment"].(map[string]any)
+				if envw == nil {
+					envw = map[string]any{}
+				}
+				if rapid.Bool().Draw(t, "passlist") {
+					var l []any
+					for _, k := range sortedKeys(envw) {
+						if envw[k] == nil {
+							l = append(l, k)
+						} else {
+							l = append(l, fmt.Sprintf("%s=%v", k, envw[k]))
+						}
+					}
+					sm["environment"] = append(l, key)
+				} else {
+					envw[key] = nil
+					sm["environment"] = envw
+				}
+				groups[g].defs[key] = val
+				cs.Features = append(cs.Features, "valueless-environment-entry")
+			}
 			put(groups[g].doc, kind, name, sm)
-			put(pasted, kind, name, prefixPaths(v.(map[string]any), baseDir(g)))
+			put(pasted, kind, name, prefixPaths(vm, baseDir(g)))
 		} else {
 			if wm, ok := written.(map[string]any); ok && kind == "secrets" {
 				if ev, ok := wm["environment"].(string); ok && rapid.Bool().Draw(t, "secret-var-in-included-env") {
@@ -352,13 +385,16 @@ func c06Check(c *Ctx, cs c06Case) *Failure {
 		c.Label("negative:" + cs.Negative)
 		c.NonTrivial(jsonKey(cs.Distributed), cs.Distributed)
 		if cs.MustLoad {
-			if rd.Err != nil {
+			if rd.Err != nil && cs.ErrMust != "-" {
 				return failf("c06:valid-include-rejected:"+cs.Negative, "%s must load but failed: %v\n%s", cs.Negative, rd.Err, desc())
 			}
 			return nil
 		}
 		if rd.Err == nil {
 			return failf("c06:invalid-include-accepted:"+cs.Negative, "%s loaded without error\n%s", cs.Negative, desc())
+		}
+		if cs.ErrMust != "" && !strings.Contains(rd.Err.Error(), cs.ErrMust) {
+			return failf("c06:wrong-rejection:"+cs.Negative, "%s is rejected with %q, which does not say %q\n%s", cs.Negative, rd.Err, cs.ErrMust, desc())
 		}
 		return nil
 	}
@@ -425,9 +461,100 @@ func c06Negatives() []c06Case {
 	return out
 }
 
+// c06Bodies are pairwise different definitions per resource kind ("~" is the empty body, `name:` with nothing after it).
+var c06Bodies = map[string][]string{
+	"services": {"{image: one}", "{image: two}", "{image: one, command: [x]}", "{image: one, labels: {a: b}}"},
+	"networks": {"~", "{driver: bridge}", "{driver: overlay}", "{external: true}", "{name: custom}", "{labels: {a: b}}"},
+	"volumes":  {"~", "{driver: local}", "{driver: other}", "{external: true}", "{name: custom}", "{labels: {a: b}}"},
+	"secrets":  {"{file: /abs/a}", "{file: /abs/b}", "{environment: E}", "{external: true}", "{file: /abs/a, labels: {a: b}}"},
+	// `{environment: E}` is left out for configs: an included config sourced from the environment is the known
+	// finding c06:valid-include-rejected:included-config-from-environment and would end every run here
+	"configs": {"{content: a}", "{content: b}", "{file: /abs/a}", "{external: true}", "{content: a, labels: {a: b}}"},
+}
+
+// genC06Conflict defines one resource on two sides of an include graph, identically or differently.
+func genC06Conflict(t *rapid.T) c06Case {
+	kind := rapid.SampledFrom([]string{"services", "networks", "volumes", "secrets", "configs"}).Draw(t, "kind")
+	bodies := c06Bodies[kind]
+	i := rapid.IntRange(0, len(bodies)-1).Draw(t, "first")
+	j := rapid.IntRange(0, len(bodies)-1).Draw(t, "second")
+	if rapid.IntRange(0, 2).Draw(t, "same") == 0 {
+		j = i
+	}
+	route := rapid.SampledFrom([]string{"main-then-include", "include-then-include", "include-then-nested", "nested-then-include", "main-then-nested", "diamond-leaf"}).Draw(t, "route")
+	def := func(k int) string {
+		b := bodies[k]
+		if b == "~" {
+			b = ""
+		}
+		return fmt.Sprintf("%s:\n  shared: %s\n", kind, b)
+	}
+	svc := func(name string) string { return fmt.Sprintf("services:\n  %s:\n    image: img-%s\n", name, name) }
+	doc := func(includes []string, own string, defn string) string {
+		var b strings.Builder
+		if len(includes) > 0 {
+			b.WriteString("include:\n")
+			for _, p := range includes {
+				b.WriteString("  - " + p + "\n")
+			}
+		}
+		if kind == "services" && defn != "" {
+			// one services mapping per document
+			b.WriteString(svc(own) + "  shared: " + strings.TrimPrefix(strings.TrimSuffix(defn, "\n"), "services:\n  shared: ") + "\n")
+			return b.String()
+		}
+		b.WriteString(svc(own))
+		b.WriteString(defn)
+		return b.String()
+	}
+	var files []memFile
+	switch route {
+	case "main-then-include":
+		files = []memFile{{Name: "compose.yaml", Content: doc([]string{"a/compose.yaml"}, "web", def(i))}, {Name: "a/compose.yaml", Content: doc(nil, "a", def(j))}}
+	case "include-then-include":
+		files = []memFile{{Name: "compose.yaml", Content: doc([]string{"a/compose.yaml", "b/compose.yaml"}, "web", "")}, {Name: "a/compose.yaml", Content: doc(nil, "a", def(i))}, {Name: "b/compose.yaml", Content: doc(nil, "b", def(j))}}
+	case "include-then-nested":
+		files = []memFile{{Name: "compose.yaml", Content: doc([]string{"a/compose.yaml", "b/compose.yaml"}, "web", "")}, {Name: "a/compose.yaml", Content: doc(nil, "a", def(i))},
+			{Name: "b/compose.yaml", Content: doc([]string{"../c/compose.yaml"}, "b", "")}, {Name: "c/compose.yaml", Content: doc(nil, "c", def(j))}}
+	case "nested-then-include":
+		files = []memFile{{Name: "compose.yaml", Content: doc([]string{"b/compose.yaml", "a/compose.yaml"}, "web", "")}, {Name: "a/compose.yaml", Content: doc(nil, "a", def(j))},
+			{Name: "b/compose.yaml", Content: doc([]string{"../c/compose.yaml"}, "b", "")}, {Name: "c/compose.yaml", Content: doc(nil, "c", def(i))}}
+	case "main-then-nested":
+		files = []memFile{{Name: "compose.yaml", Content: doc([]string{"b/compose.yaml"}, "web", def(i))},
+			{Name: "b/compose.yaml", Content: doc([]string{"../c/compose.yaml"}, "b", "")}, {Name: "c/compose.yaml", Content: doc(nil, "c", def(j))}}
+	case "diamond-leaf":
+		// the same leaf through two routes, plus (when different) a second definition beside one of the routes
+		files = []memFile{{Name: "compose.yaml", Content: doc([]string{"a/compose.yaml", "b/compose.yaml"}, "web", "")},
+			{Name: "a/compose.yaml", Content: doc([]string{"../c/compose.yaml"}, "a", "")}, {Name: "c/compose.yaml", Content: doc(nil, "c", def(i))}}
+		if i == j {
+			files = append(files, memFile{Name: "b/compose.yaml", Content: doc([]string{"../c/compose.yaml"}, "b", "")})
+		} else {
+			files = append(files, memFile{Name: "b/compose.yaml", Content: doc([]string{"../c/compose.yaml"}, "b", def(j))})
+		}
+	}
+	cs := c06Case{Distributed: files, Env: map[string]string{"E": "from-env"}}
+	empty := bodies[i] == "~" || bodies[j] == "~"
+	switch {
+	case i != j:
+		cs.Negative, cs.MustLoad, cs.ErrMust = "generated-conflict:"+kind+":"+route, false, "conflicts with imported resource"
+		if empty {
+			cs.Negative += ":empty-body"
+		}
+	case strings.HasPrefix(route, "main-"):
+		// identical text in the main file and in an included one: the property only promises acceptance for
+		// two include routes; here the check is that nothing panics
+		cs.Negative, cs.MustLoad = "generated-same:"+kind+":"+route, true
+		cs.ErrMust = "-"
+	default:
+		cs.Negative, cs.MustLoad = "generated-same:"+kind+":"+route, true
+	}
+	return cs
+}
+
 func TestC06(t *testing.T) {
 	c := NewCtx(t, "C06")
 	neg := c06Negatives()
 	RunEnum(c, t, "conflicts-and-cycles", len(neg), func(i int) c06Case { return neg[i] }, c06Check, true)
+	RunRapid(c, t, Sub[c06Case]{Kind: "generated-conflicts", Quick: 1500, Thorough: 20_000, Gen: genC06Conflict, Check: c06Check})
 	RunRapid(c, t, Sub[c06Case]{Kind: "partition", Quick: 2500, Thorough: 30_000, Gen: genC06, Check: c06Check})
 }
